@@ -277,6 +277,19 @@ impl Scenario for Segments {
         for k in 1..SEGMENTS_CLOSING_LEN {
             v.push(json!({"cuts": [k], "closing": true}));
         }
+        // ... and hangs up behind its Close, the end of the stream being seen in a pass of its
+        // own or in the same pass as the last byte
+        for same_pass in [false, true] {
+            v.push(json!({"cuts": [], "closing": true, "hangup": true, "same_pass": same_pass}));
+            for k in 1..SEGMENTS_CLOSING_LEN {
+                v.push(json!({"cuts": [k], "closing": true, "hangup": true, "same_pass": same_pass}));
+            }
+            // ... the same with the hang-up showing as a reset (reads fail instead of returning 0)
+            v.push(json!({"cuts": [], "closing": true, "hangup": true, "same_pass": same_pass, "reset": true}));
+            for k in (1..SEGMENTS_CLOSING_LEN).step_by(7) {
+                v.push(json!({"cuts": [k], "closing": true, "hangup": true, "same_pass": same_pass, "reset": true}));
+            }
+        }
         // a third one: two frames behind OpenOk that are both violations, of different kinds (the
         // first decides how the connection ends, however the burst is cut)
         v.push(json!({"cuts": [], "early2": true}));
@@ -310,7 +323,7 @@ impl Scenario for Segments {
             behind.push(AMQPFrame::Method(1, AMQPClass::Tx(tx::AMQPMethod::SelectOk(tx::SelectOk {}))));
             behind.push(header(0, 1, false));
         }
-        hs.after_open = vh::sim::broker::Stage::Frames(behind, false);
+        hs.after_open = vh::sim::broker::Stage::Frames(behind, p["hangup"] == true);
         let mut broker = StdBroker::new(hs);
         let mut f = vec![deliver(1, "ctag-1-2", 7), header(1, 5, true), body(1, &[1, 2]), body(1, &[3, 4, 5])];
         f.push(AMQPFrame::Method(1, AMQPClass::Basic(basic::AMQPMethod::Return(basic::Return { reply_code: 312, reply_text: "NO_ROUTE".into(), exchange: "rex".into(), routing_key: "rrk".into() }))));
@@ -320,6 +333,10 @@ impl Scenario for Segments {
         let mut cfg = EnvConfig::default();
         cfg.time = false;
         cfg.force_cuts = p["cuts"].as_array().unwrap().iter().map(|x| x.as_u64().unwrap() as usize).collect();
+        cfg.eof_with_last_byte = p["hangup"] == true && p["same_pass"] == true;
+        if p["reset"] == true {
+            cfg.hangup = "reset";
+        }
         if let Some(k) = p["eof_at"].as_u64() {
             cfg.crash_after_inbound = Some((k as usize, vh::sim::world::FaultKind::ReadEof));
             cfg.crash_with_last_byte = p["same_pass"] == true;
@@ -399,7 +416,8 @@ impl Scenario for Segments {
                 v.push(("segments:closing-observations".into(), format!("server stream cut at {:?}: observed {:?}", p["cuts"], main)));
             }
             let (envs, _) = wire_frames(o);
-            if !envs.last().map(|e| e.chan == 0 && is_method(e, 10, 51)).unwrap_or(false) {
+            // (a server that has hung up has nobody left to take the CloseOk)
+            if p["hangup"] != true && !envs.last().map(|e| e.chan == 0 && is_method(e, 10, 51)).unwrap_or(false) {
                 v.push(("segments:closing-no-close-ok".into(), format!("server stream cut at {:?}: the last frame written is not Connection.CloseOk", p["cuts"])));
             }
             if o.inbound.len() >= SEGMENTS_CLOSING_LEN {
